@@ -15,7 +15,7 @@ def child_edges(run, node, i):
     g = run.g
     if k == "ref":
         yield (g.body_of(node), i, True)
-    elif k in ("map", "recognize", "take_until", "take_except"):
+    elif k in ("map", "recognize", "take_until", "take_except", "verify"):
         yield (node.kids[0], i, True)
     elif k == "opt":
         yield (node.kids[0], i, run.ends(node.kids[0], i).ok())
@@ -75,7 +75,10 @@ def child_edges(run, node, i):
     elif k in ("peek", "not", "all_consuming"):
         if k != "not":
             yield (node.kids[0], i, True)
-    # leaves: nothing
+    elif k in ("tag", "tag_nc", "class0", "class1", "one", "eof"):
+        pass
+    else:
+        raise nomsem.Unsupported("activation through %s" % k)
 
 
 def activation(run, root, root_cond):
